@@ -62,6 +62,8 @@ def parseOp (kind : String) (kv : KV) : Option Op :=
   | "recv" => some (.recv { dstChannel := unesc (kv.get "ch"), sender := pktAddr (kv.get "snd"), receiver := pktAddr (kv.get "rcv"),
                             denom := unesc (kv.get "d"), amount := natOf (kv.get "amt"), credit := parseCredit (kv.get "credit"),
                             underOk := kv.get "under" == "1", conv := parseConv (kv.get "conv") })
+  | "obparams" => some (.setParams { enabled := kv.get "en" == "1", threshold := natOf (kv.get "thr"),
+                                     channels := (listOf (kv.get "ch")).map unesc })
   | _ => (Drv.Coinswap.parseOp kind kv).map Op.cs
 
 def parseAck (s : String) : Ack := if s == "same" then .given else if s == "err" then .error else .other
@@ -148,9 +150,11 @@ def processLine (acc : Acc) (line : String) : Acc :=
         let implResp := if implOk then parseResp kind (kvOf outToks.tail) else pass
         let implPost := applyAllKeys acc.cur (kvOf deltaToks)
         let mres := step acc.env acc.cur op
+        -- `later=1`: a later message of the same transaction failed: the branch is discarded, nothing changed
+        let later := (kvOf args).get "later" == "1"
         let (modelOk, modelResp, modelPost, modelRej) :=
           match mres with
-          | .ok (s', r) => (true, r, s', "")
+          | .ok (s', r) => if later then (false, pass, acc.cur, "later") else (true, r, s', "")
           | .error e => (false, pass, acc.cur, rejName e)
         let convSeen := match op with
           | .recv _ => (kvOf args).get "conv" != "none"
@@ -162,7 +166,8 @@ def processLine (acc : Acc) (line : String) : Acc :=
           (if modelPost.cs.pools != implPost.cs.pools || modelPost.cs.seq != implPost.cs.seq then ["pools"] else []) ++
           (if !Spec.sameList modelPost.pairs implPost.pairs then ["pairs"] else []) ++
           (if !modelPost.tok.eqv implPost.tok then ["tok"] else []) ++
-          (if !Spec.sameList modelPost.macc implPost.macc then ["macc"] else [])
+          (if !Spec.sameList modelPost.macc implPost.macc then ["macc"] else []) ++
+          (if modelPost.ob != implPost.ob then ["ob"] else [])
         let tr : Spec.Tr := { env := acc.env, pre := acc.cur, op := op, ok := implOk, resp := implResp, post := implPost }
         let viol := Spec.monitors.filterMap (fun (pid, name, f) => if f tr then none else some s!"{seq} V {pid} {name}")
         -- the callback panicked on a packet for which the specification (the model) returns an acknowledgement: the
@@ -170,6 +175,9 @@ def processLine (acc : Acc) (line : String) : Acc :=
         let viol := viol ++ (match op with
           | .recv _ => if modelOk && implClass == "rej:panic" then [s!"{seq} V C11 ack_returned_no_panic"] else []
           | _ => [])
+        -- a parameter update on a discarded branch left something behind (as observed through the keeper): from then on the
+        -- module acts on channels / thresholds / an enabled flag that were never committed
+        let viol := viol ++ (if later && !implOk && !Spec.sameState acc.cur implPost then [s!"{seq} V C11 discarded_update_unchanged"] else [])
         let (br, mag) := match op with
           | .recv p => (branchOf acc.env acc.cur p, magnitude p.amount)
           | .cs o => (Drv.Coinswap.branchOf acc.cur.cs o, Drv.Coinswap.opMagnitude o)
